@@ -45,8 +45,8 @@ RULE = (
     "as Python floats; all eight methods (transform, inverse, deriv, deriv2, deriv3, deriv_inverse, deriv2_inverse, "
     "deriv3_inverse), the round trip and monotonicity are compared with the mpmath model. endpoints: same descriptors, the "
     "reference end points (domain ends; 0 and b for the b-scaled maps; 0 for Hyperbolic whose pole is at 1/b) go through "
-    "transform. non-trivial = k or m not in {1,2}, or trim_inf off, or explicit/inferred b other than the default use, or "
-    "scalar input, or an inverted transform; distinct = distinct descriptor"
+    "transform. non-trivial = k or m not in {1,2}, or trim_inf off, or a b-scaled map (explicit or inferred b), or scalar "
+    "input, or an inverted transform; distinct = distinct descriptor"
 )
 ASSUMPTIONS = [
     "the class docstrings of rtransform.py define the maps; the garbled Exp/Power forward docstrings are read as the "
@@ -438,6 +438,10 @@ def case_strategy(draw, classes=None):
     return case
 
 
+def _no_scalar(case):
+    return dict(case, scalar=False)
+
+
 def pinned_analytic():
     """Regression cases of the repaired HandyMod.deriv3 (0729443: wrong for every m not in {1,2}) and the recon sets."""
     u = [0.15, 0.4, 0.65, 0.9, 0.0, 1.0]
@@ -497,8 +501,8 @@ def selftest():
 def subchecks(tier, seed):
     quick = tier == "quick"
     return [
-        SubCheck("analytic", body_analytic, strategy=case_strategy(), examples=12000 if quick else 200000, shards=16 if quick else 32),
-        SubCheck("endpoints", body_endpoints, strategy=case_strategy(), examples=4000 if quick else 40000, shards=16),
+        SubCheck("analytic", body_analytic, strategy=case_strategy(), examples=12000 if quick else 400000, shards=16 if quick else 32),
+        SubCheck("endpoints", body_endpoints, strategy=case_strategy().map(_no_scalar), examples=4000 if quick else 60000, shards=16),
         SubCheck("pinned-analytic", body_analytic, cases=pinned_analytic(), shards=8),
         SubCheck("pinned-endpoints", body_endpoints, cases=pinned_endpoints(), shards=4),
     ]
